@@ -81,6 +81,13 @@ CLAIMED = {
          "preservation, components-minus-holes and hull containment are judged on every generated / exhaustive (<=3x5) case by "
          "independent evaluation; thin, euler and convexhull are compared with the extracted models",
          "Rocq proof + finite sweeps + translator + differential correspondence"),
+ "C17": ("proof", "Coq theorems: on every row of even length ihaar inverts haar exactly, a Haar pass doubles the sum of squares "
+         "(so the energy-preserving transform conserves it), haar is additive and homogeneous; [fin] the ten Daubechies tables "
+         "RE-TRANSLATED from _convolve.cpp have lengths 2..20, sum to 2 and are orthonormal under even shifts within 1e-5, with "
+         "D2 = [1,1]; wavelet_center offsets exceed the border and wavelet_decenter inverts wavelet_center. The 2-D transforms, "
+         "inline semantics, linearity and centred reconstruction for every code are compared with the extracted models / checked "
+         "numerically on the fresh build",
+         "Rocq proof + finite table check + translator + differential correspondence (exact integer regime)"),
 }
 NOT_YET = "check not built yet in this round (see DESIGN.md section 8 for the plan)"
 ALL = ["C%02d" % i for i in range(1, 21)]
